@@ -8,6 +8,7 @@ package main
 
 import (
 	"bytes"
+	crand "crypto/rand"
 	"fmt"
 	"math/big"
 
@@ -330,6 +331,21 @@ func main() {
 		}
 	}
 	R.Class("sign/reader fault positions", 33)
+	// nil reader = crypto/rand.Reader (scripted; sequential because it swaps a process-global)
+	for _, d := range ds[:6] {
+		aux := mc.Script{Src: "counter"}.Bytes(32)
+		want, _ := ref.BIP340Sign(d, aux, msgs[3])
+		sk, _ := mkSK(d, 0)
+		old := crand.Reader
+		rd := mc.Script{Src: "counter", Mode: "full", FailAfter: -1}.New()
+		crand.Reader = rd
+		sig, err := sk.Sign(nil, msgs[3], nil)
+		crand.Reader = old
+		R.T(1)
+		if err != nil || !bytes.Equal(sig, want) || rd.Consumed != 32 {
+			R.Fail("sign/nil reader (crypto/rand.Reader scripted)", "misc", map[string]any{"d": mc.HexBig(d), "err": fmt.Sprint(err), "consumed": rd.Consumed, "what": "Sign(nil reader) must be BIP-340 Sign with the 32 bytes read from crypto/rand.Reader as aux"}, nil)
+		}
+	}
 	// key derivation
 	for _, d := range ds {
 		R.Run("derive/private", "derive", mc.D{"d": mc.HexBig(d)})
